@@ -6,6 +6,11 @@
 //!   tyme-mc-loom run C10 <quick|thorough> <seed> <result.json>
 //!   tyme-mc-loom replay C10 <result.json> <harness> <bound|none> <execution index>
 #![allow(dead_code, deprecated, unused_imports)]
+// default: the rewritten copy of /repo/src/tyme produced by build.rs (every sync primitive routed through loom);
+// feature "plain": the repository files themselves via #[path] (only the hook'd statics are loom objects)
+#[cfg(not(feature = "plain"))]
+include!(concat!(env!("OUT_DIR"), "/tyme_root.rs"));
+#[cfg(feature = "plain")]
 #[path = "/repo/src/tyme/mod.rs"]
 pub mod tyme;
 
